@@ -176,6 +176,19 @@ GetItemVerdict(e) ==
   ELSE IF e.after # e.before THEN "getitem_modified_its_operand"
   ELSE "ok"
 
+\* x.itermv() / x.shape: the multivectors inside an array-valued multivector, one per position of the trailing shape in C
+\* order, each with the operand's keys and the coefficients at that position; shape = <<number of keys>> \o trailing shape
+IterMvVerdict(e) ==
+  LET n == IF e.before.flat = <<>> THEN 0 ELSE Len(e.before.flat[1]) IN
+  IF e.raised # "" THEN "itermv_raised"
+  ELSE IF e.shape # <<Len(e.before.keys)>> \o e.before.shape THEN "shape_is_not_number_of_keys_then_trailing_shape"
+  ELSE IF Len(e.items) # n THEN "itermv_yields_another_number_of_multivectors"
+  ELSE IF \E i \in DOMAIN e.items : e.items[i].keys # e.before.keys \/
+             e.items[i].vals # [k \in DOMAIN e.before.keys |-> e.before.flat[k][i]]
+       THEN "itermv_item_differs_from_operand_at_that_position"
+  ELSE IF e.after # e.before THEN "itermv_modified_its_operand"
+  ELSE "ok"
+
 \* x[idx] = v: exactly the addressed entries of every coefficient change, to the assigned values
 \* mode "mv_perm": the assigned multivector stores the SAME blades in another order; the assignment is by blade
 \* (e.assigned is listed per blade of the target).  The library may refuse it (any exception) -- then nothing may
@@ -280,6 +293,7 @@ Verdict(e) ==
     [] e.kind = "bcast" -> BcastVerdict(CC, e)
     [] e.kind = "getitem" -> GetItemVerdict(e)
     [] e.kind = "setitem" -> SetItemVerdict(e)
+    [] e.kind = "itermv" -> IterMvVerdict(e)
     [] e.kind = "relabel" -> RelabelVerdict(e)
     [] e.kind = "mix" -> MixVerdict(e)
     [] e.kind = "subst" -> SubstVerdict(CC, e)
